@@ -1331,15 +1331,93 @@ def _run_all(ctx, case_list, use_driver=True, element_limit=3):
     return recs
 
 
+def dirichlet_cells(ctx, rng, use_driver=True):
+    """`DirichletClassificationLikelihood.get_fantasy_likelihood(targets=…)` (its own override of the fixed-noise one):
+    noise = [old; noise of the new labels], labels and transformed labels extended in the same order, source likelihood
+    untouched — also when `deepcopy` raises."""
+    import torch
+    from gpytorch.likelihoods import DirichletClassificationLikelihood as DCL
+    old_dt = torch.get_default_dtype()
+    torch.set_default_dtype(torch.float64)
+    lines, pend = [], []
+    try:
+        for k in range(6 if ctx.tier == "quick" else 24):
+            ncls, n, f = rng.choice([2, 3, 4]), rng.randint(3, 7), rng.randint(1, 3)
+            g = torch.Generator().manual_seed(rng.getrandbits(30))
+            y = torch.randint(0, ncls, (n,), generator=g)
+            y[0] = ncls - 1
+            ynew = torch.randint(0, ncls, (f,), generator=g)
+            cfg = {"dirichlet": 1, "classes": ncls, "y": y.tolist(), "ynew": ynew.tolist(), "alpha": rng.choice([0.01, 0.05]),
+                   "learn": k % 2, "poison": int(k % 3 == 2)}
+            rp = {"cfg": cfg}
+            with warnings.catch_warnings():
+                warnings.simplefilter("ignore")
+                lik = DCL(y, alpha_epsilon=cfg["alpha"], learn_additional_noise=bool(cfg["learn"]))
+                nc = lik.noise_covar
+                snap = (id(nc), id(nc.noise), nc.noise.detach().clone(), lik.targets.clone(), lik.transformed_targets.clone())
+                if cfg["poison"]:
+                    lik._c04_poison = _Poison()
+                err, fl = None, None
+                try:
+                    fl = lik.get_fantasy_likelihood(targets=ynew)
+                except Exception as e:  # noqa: BLE001
+                    err = f"{type(e).__name__}: {str(e)[:100]}"
+                after = "" if err is None else f" (after get_fantasy_likelihood raised {err.split(':')[0]})"
+                nc2 = getattr(lik, "noise_covar", None)
+                if nc2 is None or id(nc2) != snap[0] or id(nc2.noise) != snap[1] or not _same(nc2.noise, snap[2]):
+                    ctx.fail("frame:dirichlet.noise_covar", "source DirichletClassificationLikelihood.noise_covar is "
+                             + ("None" if nc2 is None else "not the object / values it was") + after, rp)
+                if not (_same(lik.targets, snap[3]) and _same(lik.transformed_targets, snap[4])):
+                    ctx.fail("frame:dirichlet.targets", "labels of the source Dirichlet likelihood changed" + after, rp)
+                ctx.count("dirichlet_frame_checks")
+                ctx.case({"cfg": cfg}, nontrivial=True, sample={"cell": "dirichlet-fantasy-likelihood", "n": n, "f": f})
+                if cfg["poison"]:
+                    if err is None:
+                        ctx.broke("correspondence", "dirichlet-poison", "deepcopy of a poisoned likelihood did not raise")
+                    continue
+                if err is not None:
+                    ctx.fail("fantasy:dirichlet:likelihood:raises", f"get_fantasy_likelihood(targets=…) raised {err}", rp)
+                    continue
+                nn, ntt, _ = lik._prepare_targets(ynew, alpha_epsilon=lik.alpha_epsilon, dtype=snap[2].dtype,
+                                                  num_classes=lik.num_classes)
+                fn_ = fl.noise_covar.noise
+                want = torch.cat([snap[2], nn], -1)
+                if fn_.shape != want.shape or not torch.equal(fn_, want):
+                    ctx.fail("fantasy:dirichlet:likelihood:noise-order", "noise of the Dirichlet fantasy likelihood is not "
+                             "[old noise; noise of the new labels]", rp)
+                elif use_driver:
+                    c = rng.randrange(fn_.shape[0])
+                    lines.append(" ".join(["noisecat", C.mat_tokens(snap[2][c].unsqueeze(-1)), C.mat_tokens(nn[c].unsqueeze(-1))]))
+                    pend.append((rp, [C.frac(v) for v in fn_[c].tolist()]))
+                if not (torch.equal(fl.targets, torch.cat([snap[3], ynew], -1))
+                        and torch.equal(fl.transformed_targets, torch.cat([snap[4], ntt.transpose(-2, -1)], -1))):
+                    ctx.fail("fantasy:dirichlet:likelihood:targets", "labels / transformed labels of the Dirichlet fantasy "
+                             "likelihood are not [old; new]", rp)
+                if fn_.untyped_storage().data_ptr() == snap[2].untyped_storage().data_ptr() \
+                        or fn_.untyped_storage().data_ptr() == nc.noise.untyped_storage().data_ptr():
+                    ctx.fail("frame:aliasing", "Dirichlet fantasy likelihood's noise shares storage with the source's", rp)
+        if lines:
+            for (rp, want), rep in zip(pend, run_driver_parallel(lines)):
+                rows, _ = C.parse_mat(rep.split("|")[1].split()) if rep.startswith("ok") else ([], None)
+                ctx.count("noise_concat_checks")
+                if not rep.startswith("ok eq=1") or [r_[0] for r_ in rows] != want:
+                    ctx.fail("fantasy:dirichlet:likelihood:noise-order", "generated [old; new] concatenation differs from the "
+                             "noise of the Dirichlet fantasy likelihood", rp)
+    finally:
+        torch.set_default_dtype(old_dt)
+
+
 def correspondence(ctx):
     case_list = cases(ctx.tier, ctx.rng("cases"))
     try:
         _run_all(ctx, case_list, use_driver=True)
+        dirichlet_cells(ctx, ctx.rng("dirichlet"), use_driver=True)
     except RuntimeError as e:
         if "driver" not in str(e):
             raise
         ctx.broke("correspondence", "driver C04", str(e)[-1500:])
         _run_all(ctx, case_list, use_driver=False)
+        dirichlet_cells(ctx, ctx.rng("dirichlet"), use_driver=False)
     ctx.notes["max_err"] = {k: float(f"{v:.3e}") for k, v in ctx.notes.get("max_err", {}).items()}
     ctx.assumption("observation (not a violation): add_to_cache(fant_strat, 'mean_cache', ...) stores the carried solve "
                    "under key ('mean_cache', ()) while _mean_cache(policy) reads ('mean_cache', (policy,)): the carried "
@@ -1358,6 +1436,9 @@ def search(ctx, broken):
 def replay(ctx, payload):
     cfg = payload["case"]["cfg"]
     before = len(ctx.failures)
+    if cfg.get("dirichlet"):
+        dirichlet_cells(ctx, ctx.rng("dirichlet"), use_driver=False)
+        return len(ctx.failures) == before
     try:
         _run_all(ctx, [cfg], use_driver=True)
     except RuntimeError:
